@@ -676,7 +676,13 @@ pub fn oracle(c: &Case, ran: &Ran) -> String {
         if b.as_str() != "ok" && b.as_str() != "bad" { fails.borrow_mut().push(format!("builder_{b}")); }
     }
     let fails = fails.into_inner();
-    if fails.is_empty() { "ok".to_string() } else { format!("FAIL:C16:{}", fails.join(";C16:")) }
+    if fails.is_empty() { "ok".to_string() } else {
+        // the privacy level the user asked for is what C18 starts from: a lost or altered level is also a C18 failure
+        let privacy: Vec<String> = fails.iter().filter(|m| m.starts_with("tui_privacy_max_ttl:")).map(|m| format!("C18:requested_privacy_level_not_in_force:{m}")).collect();
+        let mut out = format!("FAIL:C16:{}", fails.join(";C16:"));
+        for m in privacy { out.push(';'); out.push_str(&m); }
+        out
+    }
 }
 
 // ------------------------------------------------------------------ generation
